@@ -143,7 +143,8 @@ def gen_path_parts(draw, maxparts=5):
     for _ in range(draw(st.integers(0, maxparts))):
         k = draw(st.integers(0, 5))
         if k <= 2:
-            parts.append(['P', draw(st.sampled_from([['s', s] for s in STRS] + [['i', 0], ['i', 1], ['i', -1], ['none'], ['f', 0.5], ['tuple', [['i', 1]]]]))])
+            parts.append(['P', draw(st.sampled_from([['s', s] for s in STRS] + [['i', 0], ['i', 1], ['i', -1], ['none'], ['f', 0.5], ['tuple', [['i', 1]]],
+                                                    ['builtin', 'int'], ['builtin', 'len'], ['tuple', [['builtin', 'str'], ['i', 1]]]]))])
         elif k <= 4:
             parts.append(['T', gen_steps(draw, draw(st.integers(1, 2)), 'T', 1)])
         else:
@@ -257,10 +258,11 @@ BATTERY = [
 
 
 def canon_repr(v):
-    """repr with dict items sorted: the repr of a call step lists keyword arguments in sorted order, so a mapping built
-    from them may come back with its (equal) items in another order"""
+    """repr of a result, containers spelled out recursively"""
     if type(v) is dict:
-        return '{' + ', '.join(sorted('%s: %s' % (canon_repr(k), canon_repr(x)) for k, x in v.items())) + '}'
+        # (items in their own order: a mapping built from the keyword arguments of a call step shows the order in which
+        # the callee received them, which eval(repr(x)) must preserve -- finding F42)
+        return '{' + ', '.join('%s: %s' % (canon_repr(k), canon_repr(x)) for k, x in v.items()) + '}'
     if type(v) in (list, tuple):
         return type(v).__name__ + '(' + ', '.join(canon_repr(x) for x in v) + ')'
     return repr(v)
